@@ -16,7 +16,7 @@ import desper
 from hypothesis import strategies as st
 
 from vlib.core import PropertyViolation, with_budget, StepBudgetExceeded, raised_in_repo
-from vlib.classes import build_dag, has_diamond, EV_ADD, EV_REMOVE, EV_RENAMED, EV_PROBE
+from vlib.classes import build_dag, has_diamond, EV_ADD, EV_REMOVE, EV_RENAMED, EV_PROBE, EV_FALSY
 
 EXPLICIT_IDS = [1, 2, 3, 4, 6, 'a', ('t', 1), -1, 0, True, 2.0, '', 9]
 NEVER_USED = ['never-used', 10 ** 9]
@@ -38,7 +38,8 @@ class Sentinel(desper.Processor):
 # strategies
 
 EV_SHAPES = [0, 0, EV_ADD | EV_REMOVE, EV_ADD, EV_REMOVE, EV_ADD | EV_REMOVE | EV_RENAMED, EV_PROBE,
-             EV_ADD | EV_REMOVE | EV_PROBE, EV_ADD | EV_RENAMED, EV_REMOVE | EV_PROBE]
+             EV_ADD | EV_REMOVE | EV_PROBE, EV_ADD | EV_RENAMED, EV_REMOVE | EV_PROBE,
+             EV_FALSY, EV_FALSY | EV_ADD | EV_REMOVE | EV_PROBE]
 
 
 def decode_class(p):
@@ -62,10 +63,11 @@ def classes_strategy(min_size=3, max_size=8):
     cls = st.integers(0, CLASS_SPACE - 1).map(decode_class)
     free = st.lists(cls, min_size=min_size, max_size=max_size)
     # a diamond prefix (A; B(A); C(A); D(B, C)) followed by free classes: keeps multiple-inheritance frequent
-    diamond = st.tuples(st.integers(0, 10 ** 4 - 1), st.lists(cls, max_size=max_size - 4)).map(
-        lambda t: [{'bases': [], 'ev': EV_SHAPES[t[0] % 10]}, {'bases': [0], 'ev': EV_SHAPES[t[0] // 10 % 10]},
-                   {'bases': [0], 'ev': EV_SHAPES[t[0] // 100 % 10]},
-                   {'bases': [1, 2], 'ev': EV_SHAPES[t[0] // 1000 % 10]}] + t[1])
+    n = len(EV_SHAPES)
+    diamond = st.tuples(st.integers(0, n ** 4 - 1), st.lists(cls, max_size=max_size - 4)).map(
+        lambda t: [{'bases': [], 'ev': EV_SHAPES[t[0] % n]}, {'bases': [0], 'ev': EV_SHAPES[t[0] // n % n]},
+                   {'bases': [0], 'ev': EV_SHAPES[t[0] // n ** 2 % n]},
+                   {'bases': [1, 2], 'ev': EV_SHAPES[t[0] // n ** 3 % n]}] + t[1])
     return st.one_of(free, diamond)
 
 
